@@ -34,6 +34,10 @@ Profile GetProfile(const std::string& name, bool thorough) {
     p.pm_cmd_fail = 150; p.gen.features |= F_RSP | F_HOSTILE_NAMES;
   } else if (name == "C20") {
     p.pm_cmd_fail = 120; p.pm_tty = 400; p.hostile_output = true; p.gen.features |= F_CONSOLE;
+  } else if (name == "C17") {
+    p.gen.cycles = true; p.cycles = true; p.pm_cmd_fail = 0; p.pm_editor = 0; p.w_dry = 2;
+    p.gen.features |= F_DYNDEP | F_VALIDATION | F_DEPSGCC | F_MULTIOUT | F_HIDDEN_NOPATH;
+    p.gen.features &= ~F_REGEN;
   } else if (name == "C18") {
     p.w_clean = 8; p.w_cleandead = 4; p.w_manifest_edit = 4; p.w_build = 8; p.w_del_out = 2; p.pm_cmd_fail = 60;
     p.gen.features |= F_GENERATOR | F_DYNDEP | F_RSP | F_DEPFILE;
@@ -1026,6 +1030,7 @@ struct Driver {
     Note(std::string("clock=") + (w.k.coarse_clock ? "coarse" : "fine"));
     Note("--- build.ninja\n" + sc.ManifestText() + (sc.subninja ? "--- sub.ninja\n" + sc.SubManifestText() : ""));
     for (const Stmt& s : sc.stmts) if (!s.hidden.empty()) { std::string h = "# statement " + std::to_string(s.id) + " may also read:"; for (auto& x : s.hidden) h += " " + x; Note(h); }
+    if (!sc.cycle_note.empty()) Note("# " + sc.cycle_note);
     for (auto& d : sc.dyndeps) Note("--- " + d.path + (d.producer < 0 ? " (source)" : " (produced by " + std::to_string(d.producer) + ")") + "\n" + sc.DyndepText(d));
     {
       uint64_t x[3] = {(uint64_t)sc.stmts.size(), sc.features, (uint64_t)sc.sources.size()};
